@@ -277,3 +277,85 @@ def bool_return_leaves(F, g, depth=0, follow=None):
 
     good = walk(0, 1, 0)
     return out if good else None
+
+
+# ------------------------------------------------------------------------------------------
+# values supplied from outside a function: parameters resolved at the call sites, captured variables at the closure's creation
+
+_CALLERS = {}
+
+
+def callers_index(F):
+    """callee path -> [(caller fn record, call terminator)] over the workspace (direct, resolved calls)"""
+    idx = _CALLERS.get(id(F))
+    if idx is None:
+        idx = {}
+        for f in list(F.fns.values()):
+            g = F.built.get(f["path"], f)
+            for bi, t in mir.calls(g):
+                for n in callee_names(t):
+                    if n in F.fns:
+                        idx.setdefault(n, []).append((g, t))
+                        break
+        _CALLERS[id(F)] = idx
+    return idx
+
+
+def closure_creations(F, closure_path):
+    """[(owner fn record, aggregate rvalue)] where the closure value is built"""
+    c = F.fns.get(closure_path) or F.built.get(closure_path)
+    out = []
+    if c is None or not c.get("owner"):
+        return out
+    parent = c.get("parent") or c.get("owner")
+    for cand in (parent, c.get("owner")):
+        for src in (F.built, F.fns):
+            o = src.get(cand)
+            if o is None:
+                continue
+            for bi, si, s in mir.stmts(o):
+                rv = s["rv"]
+                if rv["k"] == "agg" and rv.get("closure") == closure_path:
+                    out.append((o, rv))
+            if out:
+                return out
+    return out
+
+
+def outer_origins(F, fn, op, depth=3, transparent_extra=(), _seen=None):
+    """Origins of an operand with parameters and captured variables resolved outward: a value that is a parameter of `fn` is
+    replaced by the origins of the actual argument at every workspace call site of `fn`; a captured variable of a closure by
+    the origins of the captured operand where the closure is created.  Returns [(fn record, Origin)]; origins that cannot be
+    resolved further (public entry parameters, call results, ...) are returned as they are."""
+    _seen = _seen if _seen is not None else set()
+    out = []
+    du = mir.DefUse(fn)
+    for o in mir.provenance(fn, du, op, transparent_extra=transparent_extra):
+        if o.kind != "arg" or depth <= 0:
+            out.append((fn, o))
+            continue
+        k = (fn["path"], o.local, o.proj)
+        if k in _seen:
+            continue
+        _seen.add(k)
+        if fn.get("def_kind") == "Closure" and o.local == 1 and o.proj and o.proj[0][1:].isdigit():
+            idx = int(o.proj[0][1:])
+            cr = closure_creations(F, fn["path"])
+            if not cr:
+                out.append((fn, o))
+                continue
+            for owner, rv in cr:
+                if idx < len(rv["ops"]):
+                    out.extend(outer_origins(F, owner, rv["ops"][idx], depth - 1, transparent_extra, _seen))
+            continue
+        if fn.get("def_kind") == "Closure":
+            out.append((fn, o))
+            continue
+        sites = callers_index(F).get(fn["path"], [])
+        if not sites:
+            out.append((fn, o))
+            continue
+        for caller, t in sites:
+            if o.local - 1 < len(t["args"]):
+                out.extend(outer_origins(F, caller, t["args"][o.local - 1], depth - 1, transparent_extra, _seen))
+    return out
